@@ -158,6 +158,7 @@ func genConstants() {
 	c.nat("capPortsChan", capOf("pkg/scan/request.go", "portGenerator", "Ports", "PortGetter"), "buffer of the port channel")
 	c.nat("capIPsChan", capOf("pkg/scan/request.go", "ipGenerator", "IPs", "IPGetter"), "buffer of the address channel")
 	c.nat("capIPPortChan", capOf("pkg/scan/request.go", "ipPortGenerator", "GenerateRequests", "*Request"), "buffer of the ip×port request channel")
+	c.nat("capIPRequestChan", capOf("pkg/scan/request.go", "ipRequestGenerator", "GenerateRequests", "*Request"), "buffer of the address request channel of the port-less scans (0 = unbuffered: a request is handed over only when the consumer takes it)")
 	c.nat("capPacketGenChan", capOf("pkg/scan/generator.go", "packetGenerator", "Packets", "*packet.BufferData"), "buffer of one packet worker's output")
 	c.nat("capSenderErrChan", capOf("pkg/packet/sender.go", "sender", "SendPackets", "error"), "buffer of the sender's error channel")
 	c.nat("capReceiverErrChan", capOf("pkg/packet/receiver.go", "receiver", "ReceivePackets", "error"), "buffer of the receiver's error channel")
